@@ -1,9 +1,9 @@
 import NmlVerif.Model.Add
 /-!
-# Model of `component_factory` and of `add()` with a type argument
+# Model of `component_factory`, of `add()` with a type argument, of the generated constructors and of the switch
 (neuroml/nml/generatedssupersuper.py:103-160 `component_factory`, 523-560 `_check_arg_list`, 26-101 `add`;
  neuroml/build_time_validation.py:26 `ENABLED`; neuroml/__init__.py:27-65 the switch functions;
- neuroml/utils.py:226-240 the module-level wrapper)
+ neuroml/utils.py:226-240 the module-level wrapper; neuroml/nml/nml.py: every generated `__init__`)
 
     comp = getattr(module, name)(**kwargs)          # every generated constructor ends in **kwargs_: unknown keys
     if name == "Cell": comp.setup_nml_cell()        #   are swallowed silently
@@ -11,9 +11,18 @@ import NmlVerif.Model.Add
     if ENABLED and validate: comp.validate()        # ValueError if invalid
     return comp
 
-Decision-level model: `validate()` (its relation to the schema is C02/C03), the `_cast(int/float, …)` failures
-inside the generated constructors (C11 owns the constructor table) and `Cell.setup_nml_cell` are parameters
-(`Env`). The member table is `Gen/Members.lean`. No Mathlib.
+Second pass: the constructor is no longer a parameter.  `CtorTable` is the constructor table of the bindings
+(`Gen/Factory.lean`, proved equal to the `ctor`/`superArgs` columns of `Gen/Bindings.lean` on every run): for every
+class the parameters of `__init__` in signature order (default literal, `_cast` kind, list flag) and the names passed
+POSITIONALLY to `super().__init__`.  `wiring` evaluates the call chain symbolically (which caller keyword or which
+default literal reaches which `self.x = …` assignment, through the positional hand-over), `construct` evaluates the
+values.  What remains a parameter (`Env`): the verdict of `validate()` (C02/C03 relate it to the schema), Python's
+`int()` / `float()` on a value, and `Cell.setup_nml_cell`.
+
+The functions of `generatedssupersuper.py` / `__init__.py` / `utils.py` are re-translated statement by statement on
+every run into `Gen/Factory.lean` (`translators/factory_extract.py`); `Props/C09Gen.lean` proves the generated
+definitions equal to the hand model below.  The `Py.*` definitions are the meaning of the Python statements the
+translator recognises.  No Mathlib.
 -/
 namespace NmlVerif.Factory
 open NmlVerif NmlVerif.Add
@@ -49,41 +58,160 @@ def Err.isValueError : Err → Bool
   | .attrError => false
   | _ => true
 
+/-! ### The generated constructors -/
+
+/-- one parameter of a generated `__init__(self, …, gds_collector_=None, **kwargs_)` -/
+structure CParam where
+  name : Nat
+  /-- the default literal as a Python value (`repr` token, truthiness); `none` for `None` -/
+  dflt : Option (String × Bool)
+  /-- the same default in the lexical form `Gen/Bindings.lean` carries (tie to the binding table) -/
+  dfltLex : Option String
+  /-- 0: not assigned here (handed to `super().__init__`); 1: `self.x = _cast(None, x)`; 2: `self.x = x`
+      (`[]` for `None` when `list`); 3: `_cast(int, x)`; 4: `_cast(float, x)` -/
+  cast : Nat
+  list : Bool
+deriving DecidableEq, Repr
+
+structure CtorRow where
+  cls : Nat
+  base : Option Nat
+  /-- signature order, without `self`, `gds_collector_`, `**kwargs_` -/
+  params : List CParam
+  /-- `super(…).__init__(a₁, …, aₙ, **kwargs_)`: the names handed over, positionally -/
+  superArgs : List Nat
+deriving DecidableEq, Repr
+
+abbrev CtorTable := List CtorRow
+
+def CtorTable.row? (C : CtorTable) (c : Nat) : Option CtorRow := C.find? (fun r => r.cls == c)
+
+def CParam.dfltVal (p : CParam) : Val :=
+  match p.dflt with
+  | none => .none
+  | some (r, t) => .atom r t
+
+/-- where the value of a constructor parameter comes from -/
+inductive Src where
+  /-- the caller's keyword `name` when given, else the literal `dflt` -/
+  | given (name : Nat) (dflt : Val)
+  /-- a literal (the parameter's own default: nothing was handed over for it) -/
+  | const (v : Val)
+
+def lookupS : List (Nat × Src) → Nat → Option Src
+  | [], _ => none
+  | (k, s) :: r, n => if k == n then some s else lookupS r n
+
+/-- the value bound to parameter `p`: what was handed over positionally (`args`); else the caller's keyword of that
+    name, which travels up in `**kwargs_` unless a class further down has a parameter of that name (`consumed`);
+    else the parameter's own default -/
+def srcOf (consumed : List Nat) (args : List (Nat × Src)) (p : CParam) : Src :=
+  match lookupS args p.name with
+  | some s => s
+  | none => if consumed.contains p.name then .const p.dfltVal else .given p.name p.dfltVal
+
+/-- positional binding of handed-over values to the base class's parameters (surplus on either side is dropped:
+    missing ones keep their default) -/
+def zipS : List CParam → List Src → List (Nat × Src)
+  | p :: ps, s :: ss => (p.name, s) :: zipS ps ss
+  | _, _ => []
+
+/-- one `self.<field> = cast(<src>)` the constructor chain performs -/
+structure Assign where
+  field : Nat
+  by_ : CParam
+  src : Src
+
+/-- `cls.__init__` called with the positionally bound parameters `args` and the keywords `**kwargs_` still carries
+    (all of the caller's except those named in `consumed`): the assignments in execution order
+    (`super().__init__(a₁, …, aₙ, **kwargs_)` runs first) -/
+def wiringFuel (C : CtorTable) : Nat → Nat → List Nat → List (Nat × Src) → List Assign
+  | 0, _, _, _ => []
+  | fuel + 1, cls, consumed, args =>
+    match C.row? cls with
+    | none => []
+    | some row =>
+      let bound := row.params.map (fun p => (p.name, srcOf consumed args p))
+      let base := match row.base with
+        | none => []
+        | some b =>
+          match C.row? b with
+          | none => []
+          | some brow =>
+            wiringFuel C fuel b (consumed ++ row.params.map (·.name))
+              (zipS brow.params (row.superArgs.map (fun a => (lookupS bound a).getD (.const .none))))
+      base ++ (row.params.filter (fun p => p.cast != 0)).map (fun p => ⟨p.name, p, srcOf consumed args p⟩)
+
+/-- the call `Cls(**kwargs)`: nothing is bound positionally, every keyword is still on offer -/
+def wiring (C : CtorTable) (cls : Nat) : List Assign := wiringFuel C C.length cls [] []
+
 structure Env where
   /-- `validate()` accepts -/
   valid : Obj → Bool
-  /-- some `_cast` in the constructor chain of the class raises `ValueError` on these keyword arguments -/
-  ctorFails : Nat → Kwargs → Bool
-  /-- class, member name, the keyword value if one was given ↦ the attribute after the constructor ran
-      (the parameter's default when absent — `None`, `[]`, or a schema default; the `_cast` value when present) -/
-  ctorValue : Nat → Nat → Option Val → Val
+  /-- Python's `int(v)`: `none` = `ValueError` -/
+  pyInt : Val → Option Val
+  /-- Python's `float(v)` -/
+  pyFloat : Val → Option Val
   /-- the class named `"Cell"` -/
   cellCls : Nat
   /-- `Cell.setup_nml_cell()` -/
   setupCell : Obj → Obj
 
-/-- the constructor: every member's attribute is set from the keyword of the same name (or the default);
-    keywords that are not member names vanish in `**kwargs_` -/
-def construct (T : Table) (env : Env) (cls : Nat) (kw : Kwargs) (oid : Nat) : Obj :=
-  .mk oid cls ((T.getMembers cls).map (fun m => (m.name, env.ctorValue cls m.name (lookup kw m.name))))
+def Src.eval (kw : Kwargs) : Src → Val
+  | .given n d => (lookup kw n).getD d
+  | .const v => v
+
+/-- `_cast(typ, value)` = `value if typ is None or value is None else typ(value)`; a list parameter stores `[]`
+    for `None` -/
+def pyCast (env : Env) (p : CParam) (v : Val) : Option Val :=
+  match p.cast with
+  | 3 => (match v with | .none => some .none | _ => env.pyInt v)
+  | 4 => (match v with | .none => some .none | _ => env.pyFloat v)
+  | 2 => if p.list then (match v with | .none => some (.list []) | _ => some v) else some v
+  | _ => some v
+
+def mapOpt {α β : Type} (f : α → Option β) : List α → Option (List β)
+  | [] => some []
+  | a :: l =>
+    match f a, mapOpt f l with
+    | some b, some bs => some (b :: bs)
+    | _, _ => none
+
+def Assign.eval (env : Env) (kw : Kwargs) (a : Assign) : Option (Nat × Val) :=
+  (pyCast env a.by_ (a.src.eval kw)).map (fun v => (a.field, v))
+
+/-- instance dictionary after the assignments (a later assignment to the same attribute overwrites) -/
+def dictOf (l : List (Nat × Val)) : List (Nat × Val) := l.foldl (fun acc p => setF acc p.1 p.2) []
+
+/-- the constructor `Cls(**kw)`: `none` = a `_cast` raised `ValueError`. Keywords that are not parameter names
+    vanish in `**kwargs_`. -/
+def construct (C : CtorTable) (env : Env) (cls : Nat) (kw : Kwargs) (oid : Nat) : Option Obj :=
+  (mapOpt (Assign.eval env kw) (wiring C cls)).map (fun l => .mk oid cls (dictOf l))
+
+/-- the keywords the constructor looks at -/
+def givenNames (C : CtorTable) (cls : Nat) : List Nat :=
+  (wiring C cls).filterMap (fun a => match a.src with | .given n _ => some n | .const _ => none)
+
+/-! ### `_check_arg_list`, `component_factory` -/
 
 /-- `_check_arg_list`: the first keyword that is not a member name -/
 def firstBadArg (T : Table) (cls : Nat) (kw : Kwargs) : Option Nat :=
   (keys kw).find? (fun k => !(T.memberNames cls).contains k)
 
-/-- what the factory hands to `validate()` / returns -/
-def built (T : Table) (env : Env) (cls : Nat) (kw : Kwargs) (oid : Nat) : Obj :=
-  if cls == env.cellCls then env.setupCell (construct T env cls kw oid) else construct T env cls kw oid
+/-- what the factory hands to `validate()` / returns, given the constructed object -/
+def built (env : Env) (cls : Nat) (o : Obj) : Obj :=
+  if cls == env.cellCls then env.setupCell o else o
 
 /-- `component_factory(component_type, validate=flag, **kw)` with `build_time_validation.ENABLED = enabled` -/
-def factory (T : Table) (env : Env) (enabled flag : Bool) (t : TypeArg) (kw : Kwargs) (oid : Nat) :
+def factory (T : Table) (C : CtorTable) (env : Env) (enabled flag : Bool) (t : TypeArg) (kw : Kwargs) (oid : Nat) :
     Except Err Obj :=
   match T.row? t.resolve with
   | none => .error .attrError
   | some _ =>
-    if env.ctorFails t.resolve kw then .error .ctorValueError
-    else
-      let comp := built T env t.resolve kw oid
+    match construct C env t.resolve kw oid with
+    | none => .error .ctorValueError
+    | some o =>
+      let comp := built env t.resolve o
       match firstBadArg T t.resolve kw with
       | some k => .error (.badArg k)
       | none => if enabled && flag then (if env.valid comp then .ok comp else .error .invalid) else .ok comp
@@ -96,9 +224,9 @@ structure AddOutcome where
 
 /-- `add()` with a type argument: the factory under the gate, then placement and validation of the parent under the
     SAME gate. A factory error leaves the parent untouched. -/
-def addByType (T : Table) (env : Env) (strOk : Obj → Bool) (enabled flag : Bool) (parent : Obj) (t : TypeArg)
-    (kw : Kwargs) (hint : Option Nat) (force : Bool) (oid : Nat) : AddOutcome :=
-  match factory T env enabled flag t kw oid with
+def addByType (T : Table) (C : CtorTable) (env : Env) (strOk : Obj → Bool) (enabled flag : Bool) (parent : Obj)
+    (t : TypeArg) (kw : Kwargs) (hint : Option Nat) (force : Bool) (oid : Nat) : AddOutcome :=
+  match factory T C env enabled flag t kw oid with
   | .error e => ⟨parent, none, .error (.inl e)⟩
   | .ok child =>
     let r := Add.add T env.valid strOk ⟨enabled, flag⟩ parent child hint force
@@ -113,29 +241,127 @@ inductive Cmd where
   | enable
   /-- `neuroml.disable_build_time_validation()` -/
   | disable
-  /-- a factory call `component_factory(t, validate=flag, **kw)` -/
+  /-- a factory call `component_factory(t, validate=flag, **kw)` (returning or raising) -/
   | make (flag : Bool) (t : TypeArg) (kw : Kwargs) (oid : Nat)
+  /-- `parent.add(t, hint=…, force=…, validate=flag, **kw)` on a given parent (returning or raising) -/
+  | addT (strOk : Obj → Bool) (flag : Bool) (parent : Obj) (t : TypeArg) (kw : Kwargs) (hint : Option Nat)
+      (force : Bool) (oid : Nat)
 
-/-- the switch after a command (factory calls never write it) -/
+/-- the switch after a command (factory and add calls never write it — `c09_gen_switch_writers`) -/
 def stepSwitch (s : Bool) : Cmd → Bool
   | .enable => true
   | .disable => false
   | .make _ _ _ _ => s
+  | .addT _ _ _ _ _ _ _ _ => s
 
 def switchAfter (s : Bool) (cmds : List Cmd) : Bool := cmds.foldl stepSwitch s
 
-/-- run a session from switch state `s`: final switch and the results of the factory calls, in order -/
-def session (T : Table) (env : Env) : Bool → List Cmd → Bool × List (Except Err Obj)
+/-- what a call left behind: a factory result, or the outcome of an `add` -/
+inductive Res where
+  | made (r : Except Err Obj)
+  | added (r : AddOutcome)
+
+/-- run a session from switch state `s`: final switch and the results of the calls, in order. A call that raises
+    is a result like any other: the session goes on, under the same switch. -/
+def session (T : Table) (C : CtorTable) (env : Env) : Bool → List Cmd → Bool × List Res
   | s, [] => (s, [])
   | s, .make f t kw oid :: cs =>
-    let rest := session T env s cs
-    (rest.1, factory T env s f t kw oid :: rest.2)
-  | s, c :: cs => session T env (stepSwitch s c) cs
+    let rest := session T C env s cs
+    (rest.1, .made (factory T C env s f t kw oid) :: rest.2)
+  | s, .addT sk f p t kw h fo oid :: cs =>
+    let rest := session T C env s cs
+    (rest.1, .added (addByType T C env sk s f p t kw h fo oid) :: rest.2)
+  | _, .enable :: cs => session T C env true cs
+  | _, .disable :: cs => session T C env false cs
 
-end NmlVerif.Factory
+def Cmd.isToggle : Cmd → Bool
+  | .enable => true
+  | .disable => true
+  | _ => false
 
-namespace NmlVerif.Factory
-open NmlVerif
+/-! ### Meaning of the Python statements the translator recognises (`Gen/Factory.lean` is written in these) -/
+namespace Py
+
+/-- `getattr(module_object, <name>)` -/
+def getattrModule (T : Table) (n : Nat) : Except Err Nat :=
+  match T.row? n with
+  | none => .error .attrError
+  | some _ => .ok n
+
+/-- `comp_type_class(**kwargs)` -/
+def instantiate (C : CtorTable) (env : Env) (cls : Nat) (kw : Kwargs) (oid : Nat) : Except Err Obj :=
+  match construct C env cls kw oid with
+  | none => .error .ctorValueError
+  | some o => .ok o
+
+/-- `comp_type_class.__name__ == "<literal>"` -/
+def nameIs (cls lit : Nat) : Bool := cls == lit
+
+/-- `comp.setup_nml_cell()` -/
+def setupNmlCell (env : Env) (comp : Obj) : Except Err Obj := .ok (env.setupCell comp)
+
+/-- `comp.validate()` -/
+def validate (env : Env) (comp : Obj) : Except Err Unit :=
+  if env.valid comp then .ok () else .error .invalid
+
+/-- `self._get_members()` -/
+def getMembers (T : Table) (self : Obj) : List MemberSpec := T.getMembers self.cls
+
+/-- the placement part of `add()` (the statements between the factory call and the final gate; property C10):
+    `Add.addCore` with the gate off -/
+def place (T : Table) (strOk : Obj → Bool) (self obj : Obj) (hint : Option Nat) (force : Bool) : Add.Outcome :=
+  Add.add T (fun _ => true) strOk ⟨false, false⟩ self obj hint force
+
+end Py
+
+/-! ### Helper call sites (`helper_methods.py` / the copy in `nml.py`) -/
+
+inductive Callee where
+  | factory | add | validate
+deriving DecidableEq, Repr
+
+/-- the `validate=` argument at a call site -/
+inductive Flag where
+  /-- not given: the callee's default (`True`) -/
+  | dflt
+  | lit (b : Bool)
+  /-- a parameter of the helper handed through -/
+  | param
+  /-- anything else -/
+  | opaque
+deriving DecidableEq, Repr
+
+structure Site where
+  cls : Nat
+  method : String
+  callee : Callee
+  /-- literal type argument, if the site names one -/
+  typ : Option Nat
+  flag : Flag
+  /-- literal keyword names given at the site -/
+  kwKeys : List Nat
+  /-- `**kwargs` of the helper handed through -/
+  passKw : Bool
+deriving DecidableEq, Repr
+
+/-- a site obeys the switch: it goes through `component_factory` / `add` (never straight to `validate()`), and its
+    flag is the default, a literal, or the caller's own -/
+def Site.gated (s : Site) : Bool :=
+  (s.callee == .factory || s.callee == .add) && s.flag != .opaque
+
+/-- validation happens at the site iff … (`flagArg`: the value of the handed-through parameter) -/
+def Site.validates (s : Site) (enabled flagArg : Bool) : Bool :=
+  enabled && (match s.flag with
+    | .dflt => true
+    | .lit b => b
+    | .param => flagArg
+    | .opaque => true)
+
+/-- literal keywords of a site that are not members of its literal type: such a call could only raise -/
+def Site.badKeys (T : Table) (s : Site) : List Nat :=
+  match s.typ with
+  | none => []
+  | some t => s.kwKeys.filter (fun k => !(T.memberNames t).contains k)
 
 /-- parameter names of `add(self, obj, hint, force, validate, **kwargs)` and
     `component_factory(cls, component_type, validate, **kwargs)`: a keyword of that name binds to the parameter and
@@ -148,5 +374,28 @@ def reservedClash (T : Table) (names : List String) : List (Nat × Nat) :=
     match names[m.name]? with
     | some s => if reservedNames.contains s then some (r.name, m.name) else none
     | none => none))
+
+/-! ### Obligations on a constructor table (decided on the generated table on every run) -/
+
+/-- every assignment of the chain is fed by the keyword of the attribute's own name (or by a literal) -/
+def Assign.straight (a : Assign) : Bool :=
+  match a.src with
+  | .given n _ => n == a.field
+  | .const _ => true
+
+/-- the chain of `cls` is wired by name -/
+def wiringOk (C : CtorTable) (cls : Nat) : Bool := (wiring C cls).all Assign.straight
+
+/-- attribute `f` is assigned exactly once along the chain of `cls` (`extensiontype_` is assigned by every class
+    of a chain that has it — always from the same keyword) -/
+def assignedOnce (C : CtorTable) (cls f : Nat) : Bool := ((wiring C cls).map (·.field)).count f == 1
+
+/-- members of `cls` whose keyword does not arrive under the attribute of the same name through exactly one
+    assignment (their keyword is accepted by `_check_arg_list` and swallowed by `**kwargs_`) -/
+def Assign.fedBy (a : Assign) (m : Nat) : Bool :=
+  a.field == m && (match a.src with | .given n _ => n == m | .const _ => false)
+
+def unstoredMembers (T : Table) (C : CtorTable) (cls : Nat) : List Nat :=
+  (T.memberNames cls).filter (fun m => !(assignedOnce C cls m && (wiring C cls).any (fun a => a.fedBy m)))
 
 end NmlVerif.Factory
